@@ -94,12 +94,15 @@ assemblyline_t asm_create_instance(uint8_t *buffer, int len) {
 }
 
 int asm_destroy_instance(assemblyline_t instance) {
+  int ret = EXIT_SUCCESS;
   // free internal buffer
   if (!instance->external)
-    if (munmap((void *)instance->buffer, instance->buffer_len) == -1)
+    if (munmap((void *)instance->buffer, instance->buffer_len) == -1) {
       perror("Error: ");
+      ret = EXIT_FAILURE;
+    }
   free(instance);
-  return EXIT_SUCCESS;
+  return ret;
 }
 
 // checks the minimum buffer length requirement 20 bytes at least
